@@ -417,7 +417,7 @@ theorem den_call (o : Obj) (nm : String) (body : M) (enter : Loc → Loc) (leave
 theorem den_callR (o : Obj) (nm : String) (body : M) (enter : Loc → Loc) (leave : Loc → Out → Loc) (s : Loc)
     (kx : PyErr → P) (kr k : Loc → P) :
     den (.callR o nm body enter leave) s kx kr k =
-      den body { enter s with self := s.obj o } kx (fun t => k (leave s t.out)) (fun t => k (leave s t.out)) := rfl
+      den body (enter s) kx (fun t => k (leave s t.out)) (fun t => k (leave s t.out)) := rfl
 
 /-- the snapshots an operand can deliver: an allowed value of the shared object, or THE value of a local operand -/
 def GoodOp (E : Env) (s : Loc) (o : Obj) (c : Coords) : Prop :=
@@ -957,14 +957,14 @@ theorem safe_den_call {E : Env} {o : Obj} {nm : String} {body rest : M} {enter :
 
 theorem safe_den_callR {E : Env} {o : Obj} {nm : String} {body rest : M} {enter : Loc → Loc} {leave : Loc → Out → Loc}
     {s : Loc} {accB acc : Res Out → Prop} {ph : Phases Cell} {kx : PyErr → P} {kr k : Loc → P}
-    (hb : SafeE E accB ph (toProg body { enter s with self := s.obj o }))
+    (hb : SafeE E accB ph (toProg body (enter s)))
     (hF : ∀ r (ph' : Phases Cell), accB r → (∀ k', ph k' = .canon → ph' k' = .canon) →
       SafeE E acc ph' (match r with
         | .error e => kx e
         | .ok out => den rest (leave s out) kx kr k)) :
     SafeE E acc ph (den (.callR o nm body enter leave ;; rest) s kx kr k) := by
   rw [den_seq, den_callR]
-  have := den_eq_bind body { enter s with self := s.obj o }
+  have := den_eq_bind body (enter s)
     (fun r => match r with
       | .error e => kx e
       | .ok out => den rest (leave s out) kx kr k)
@@ -972,6 +972,17 @@ theorem safe_den_callR {E : Env} {o : Obj} {nm : String} {body rest : M} {enter 
   rw [this]
   exact Safe.bind hb _ hF
 
+
+theorem accMul_objOf {E : Env} {id : Nat} {k : Int} {o : Out} (h : accMul E id k (.ok o)) : objOf o id = id := by
+  obtain ⟨c, t, _, _, hr⟩ := h
+  unfold seqMul at hr
+  split at hr
+  · injection hr with hr; subst hr; rfl
+  · split at hr
+    · injection hr with hr; subst hr; rfl
+    · cases hm : Curve.pjMulWith t (mkPJ (E.info id) c) k with
+      | error e => rw [hm] at hr; cases hr
+      | ok R => rw [hm] at hr; simp only [Except.map, Except.ok.injEq] at hr; subst hr; rfl
 
 theorem safe_mulsum {E : Env} (s : Loc) (ha : ObjOK E s.self) (hb : ObjOK E s.other) {acc : Res Out → Prop}
     (hacc : ∀ r, accSum E s.self s.other s.ka s.kb r → acc r) (ph : Phases Cell) (k : Loc → P) :
@@ -992,7 +1003,10 @@ theorem safe_mulsum {E : Env} (s : Loc) (ha : ObjOK E s.self) (hb : ObjOK E s.ot
     | ok o2 =>
       simp only
       refine safe_den_callR (accB := accAddG E (sumLoc s.self s.other o1 o2)) ?_ ?_
-      · exact op_safe_add_g E (sumLoc s.self s.other o1 o2) (opOK_sum_self ha o1 o2) (opOK_sum_other hb o1 o2) ph2
+      · have e1 := accMul_objOf hr1
+        have e2 := accMul_objOf hr2
+        simp only [e1, e2]
+        exact op_safe_add_g E (sumLoc s.self s.other o1 o2) (opOK_sum_self ha o1 o2) (opOK_sum_other hb o1 o2) ph2
       intro r ph3 hr _
       cases r with
       | error e => exact Safe.ret (hacc _ (Or.inr ⟨o1, hr1, Or.inr ⟨o2, hr2, hr⟩⟩))
